@@ -351,6 +351,47 @@ def ctor_cases():
                 ("nested-beyond", lambda kw, i=i: dict(kw, starts=[0] + list(kw["starts"]), ends=[N + 3] + list(kw["ends"]), **({"frames": [Z] + list(kw["frames"])} if "frames" in kw else {}))),
             ):
                 add(f"SYS {cname}(block{i}:{what},chrom)", lambda fn=fn, base=base, kwmod=kwmod: fn(kwmod(dict(base)), chrom()))
+        # the parallel lists given in another order than ascending (descending, and rotated by one): the object is either
+        # refused or well-formed (start <= end, start/end spanning its blocks)
+        for oname, perm in (("reversed", lambda l: list(reversed(l))), ("rotated", lambda l: list(l[1:]) + list(l[:1]))):
+            kw = {k_: perm(v_) for k_, v_ in base.items()}
+            for pn, pf in (("none", lambda: None), ("chrom", chrom)):
+                add(f"SYS {cname}(order:{oname},{pn})", lambda fn=fn, kw=kw, pf=pf: fn(kw, pf()))
+        if "frames" in base:
+            add(f"SYS {cname}(all lists empty)", lambda fn=fn, base=base: fn({k_: [] for k_ in base}, chrom()))
+    # from_single_intervals: every ordered pair of blocks whose parents are of two DIFFERENT kinds must be refused
+    # (mismatched / missing parents), every pair of the same kind gives a well-formed location
+    fsi_par = {
+        "none": lambda: None,
+        "id x": lambda: Parent(id="x"),
+        "id y": lambda: Parent(id="y"),
+        "id x + type": lambda: Parent(id="x", sequence_type="chromosome"),
+        "id x + seq A": lambda: Parent(id="x", sequence=Sequence("ACGTACGTAC", Alphabet.NT_STRICT)),
+        "id x + seq B": lambda: Parent(id="x", sequence=Sequence("TTTTTTTTTT", Alphabet.NT_STRICT)),
+        "id x + shorter seq": lambda: Parent(id="x", sequence=Sequence("ACGTACGT", Alphabet.NT_STRICT)),
+        "no id + seq A": lambda: Parent(sequence=Sequence("ACGTACGTAC", Alphabet.NT_STRICT)),
+        "no id + seq B": lambda: Parent(sequence=Sequence("TTTTTTTTTT", Alphabet.NT_STRICT)),
+    }
+    for k1, p1 in fsi_par.items():
+        for k2, p2 in fsi_par.items():
+            for st in (P, Mi):
+                add(f"SYS from_single_intervals(parents {k1} / {k2},{st.name})",
+                    lambda p1=p1, p2=p2, st=st: CompoundInterval.from_single_intervals([SingleInterval(0, 2, st, p1()), SingleInterval(4, 7, st, p2())]), must_refuse=k1 != k2)
+    # alphabet refusal does not depend on what was validated before: for every ordered pair of alphabets (A, B) and every
+    # text valid under A but not under B, the text is first accepted under A and must then still be refused under B
+    for A in Alphabet:
+        for B in Alphabet:
+            if A is B:
+                continue
+            only_a = [c for c in A.value if c not in B.value]
+            common = [c for c in A.value if c in B.value]
+            for c in only_a[:6]:
+                for text in ((common[0] if common else "") + c, c.lower() + c):
+                    def _two(A=A, B=B, text=text):
+                        Sequence(text, A)
+                        return Sequence(text, B)
+
+                    add(f"SYS Sequence({text!r}) accepted as {A.name} then built as {B.name}", _two, must_refuse=True)
     # Parent: every kind of child location x every kind of inconsistency
     seq10 = lambda: Sequence("ACGTACGTAC", Alphabet.NT_STRICT, id="s")
     locs = {
